@@ -32,7 +32,8 @@ def iterOf? (j : Json) : Option Iter := do
   let patched ← jOpt? verOf? (← jField? j "patched")
   let tp ← jInt? (← jField? j "tp")
   let tret ← jInt? (← jField? j "tret")
-  some { ver, now, dur, pressure, wake, lag, gone, required, patchInit, patchMid, patched, tp, tret }
+  let listed ← match jField? j "listed" with | some b => jBool? b | none => some false
+  some { ver, now, dur, pressure, wake, lag, gone, required, patchInit, patchMid, patched, tp, tret, listed }
 
 /-- `{"event": {...}}`, `{"retire": t}` or `{"background": [ver, t]}` -/
 def stepOf? (j : Json) : Option Step :=
